@@ -335,7 +335,7 @@ func main() {
 
 		// ------------------------------------------------ setter ranges
 		c.Part("setter-ranges")
-		c.Bound("SetWorkFactor / SetMaxWorkFactor for every value -2..33: panics exactly outside 1..30")
+		c.Bound("SetWorkFactor / SetMaxWorkFactor for every value -2..33: panics exactly outside 1..30; after a refused (recovered) call with 9 illegal values the earlier configuration stays in force")
 		if c.Shard == 0 {
 			for v := -2; v <= 33; v++ {
 				for which := 0; which < 2; which++ {
@@ -359,6 +359,48 @@ func main() {
 					if pan != (v < 1 || v > 30) {
 						c.Fail("setter-range", fmt.Sprintf("set%d.%d", which, v), fmt.Sprintf("setter %d with %d: panicked=%v", which, v, pan), nil)
 					}
+				}
+			}
+			// a refused (panicking, recovered) setter call leaves the configured value in force
+			for _, bad := range []int{-2, -1, 0, 31, 32, 33, 64, 1000, 1 << 31} {
+				c.Eval(2)
+				idn, _ := age.NewScryptIdentity(pass)
+				idn.SetMaxWorkFactor(10)
+				func() {
+					defer func() { recover() }()
+					idn.SetMaxWorkFactor(bad)
+				}()
+				for _, w := range []int{10, 11, 12, 22} {
+					st, _ := refage.WrapScrypt(fk, pass, salt, w)
+					scrypt.VerifLog = nil
+					got, err := idn.Unwrap(lab.FromRef([]refage.Stanza{st}))
+					n := len(scrypt.VerifLog)
+					if w <= 10 && (err != nil || !bytes.Equal(got, fk)) {
+						c.Fail("valid-work-factor-rejected", fmt.Sprintf("refused-set%d.w%d", bad, w), "after a refused SetMaxWorkFactor the identity rejects a stanza within its configured maximum", nil)
+					}
+					if w > 10 && (err == nil || n != 0) {
+						c.Fail("excessive-or-noncanonical-work-factor-accepted/after-refused-setter", fmt.Sprintf("refused-set%d.w%d", bad, w), fmt.Sprintf("identity configured with maximum 10: after SetMaxWorkFactor(%d) panicked (recovered), a stanza with work factor %d is accepted or a key derived (%d derivations)", bad, w, n), nil)
+					}
+				}
+				rc, _ := age.NewScryptRecipient(pass)
+				rc.SetWorkFactor(5)
+				func() {
+					defer func() { recover() }()
+					rc.SetWorkFactor(bad)
+				}()
+				scrypt.VerifLog = nil
+				var sts []*age.Stanza
+				var err error
+				func() {
+					defer func() {
+						if r := recover(); r != nil {
+							err = fmt.Errorf("panic: %v", r)
+						}
+					}()
+					sts, err = rc.Wrap(fk)
+				}()
+				if err != nil || len(sts) != 1 || len(sts[0].Args) != 2 || sts[0].Args[1] != "5" {
+					c.Fail("setter-range/after-refused-setter", fmt.Sprintf("refused-setwf%d", bad), fmt.Sprintf("recipient configured with work factor 5: after SetWorkFactor(%d) panicked (recovered), Wrap does not use work factor 5", bad), nil)
 				}
 			}
 		}
